@@ -1,4 +1,6 @@
 import DFV.Lemmas.C17Examples
+import DFV.Lemmas.C17Spacing
+import DFV.Lemmas.C17Attrs
 import DFV.Props.C01
 /-!
 # C17 — xarray export/import is lossless and uses cell centres as coordinates
@@ -6,14 +8,19 @@ import DFV.Props.C01
 Property theorems about the model of `Field.to_xarray` / `Field.from_xarray`
 (`DFV/Model/C17.lean`).  Number of dimensions, corners, cell counts, dimension names, units,
 tolerance factor, component count, labels, dtype tag and the values themselves (any type `α`:
-the code only moves them) are universally quantified.  `f.WF` is what the constructors of
-`Region`, `Mesh`, `Field` guarantee (plus: no spatial dimension is called `vdims`); the
+the code only moves them) are universally quantified; so is the set of attribute names of
+`Field` the `vdims` setter tests labels against (`[FieldAttrs]`), and the history of in-place
+`field.mesh.translate/scale` calls before an export (`MeshOp` lists, by induction).  `f.WF` is
+what the constructors of `Region`, `Mesh`, `Field` guarantee (plus: no spatial dimension is
+called `vdims`): proved of constructor-built fields (`wf_of_constructors`), of everything the
+importer returns (`import_wf`) and kept by every in-place history (`inplace_history_wf`); the
 driver evaluates the same predicate on every real field of the correspondence run.
 -/
 namespace DFV.C17
 open DFV
 
-variable {α : Type}
+section
+variable [FieldAttrs] {α : Type}
 
 /-! ## Export -/
 
@@ -32,6 +39,7 @@ theorem export_coords (f : XFld α) (hf : f.WF) (nm : String) (u : PyArg) (hu : 
   unfold toXarray
   simp only [hu, if_false]
 
+omit [FieldAttrs] in
 /-- **Every coordinate lies strictly inside its own cell** and the mesh maps it back to the
 index it came from (`Mesh.point2index` per axis, C01): the exported coordinates select
 exactly the cells they label. -/
@@ -73,10 +81,12 @@ theorem export_layout (f : XFld α) (hf : f.WF) (nm : String) (u : PyArg) :
     rw [e]
     exact ⟨by show f.data.shape.dropLast = _; rw [hf.shape, List.dropLast_concat], fun _ => rfl⟩
 
+omit [FieldAttrs] in
 /-- the attribute `units` is the `unit` argument if it is a non-empty string, else the field's -/
 theorem export_unit (s : String) (fu : Option String) :
     exportUnit (.str s) fu = (if s = "" then fu else some s) ∧ exportUnit .none fu = fu := ⟨rfl, rfl⟩
 
+omit [FieldAttrs] in
 /-- non-string `name` (also `None`) or non-string `unit` → `TypeError` -/
 theorem export_rejects_bad_args (f : XFld α) (name unit : PyArg) (h : (∀ s, name ≠ .str s) ∨ unit = .other) :
     toXarray f name unit = .error .type := by
@@ -87,6 +97,24 @@ theorem export_rejects_bad_args (f : XFld α) (name unit : PyArg) (h : (∀ s, n
              · simp [h]
   | none => rfl
   | other => rfl
+
+omit [FieldAttrs] in
+/-- **The export succeeds exactly on string arguments**: `to_xarray(name, unit)` returns a
+DataArray iff `name` is a string and `unit` is a string or `None` — whatever the field. -/
+theorem export_ok_iff (f : XFld α) (name unit : PyArg) :
+    (∃ xa, toXarray f name unit = .ok xa) ↔ (∃ s, name = .str s) ∧ unit ≠ .other := by
+  constructor
+  · rintro ⟨xa, h⟩
+    cases name with
+    | none => cases h
+    | other => cases h
+    | str s =>
+      refine ⟨⟨s, rfl⟩, ?_⟩
+      intro hu
+      rw [export_rejects_bad_args f (.str s) unit (Or.inr hu)] at h
+      cases h
+  · rintro ⟨⟨s, rfl⟩, hu⟩
+    exact ⟨exported f s unit, by unfold toXarray; simp only [hu, if_false]⟩
 
 /-! ## Import of an export -/
 
@@ -209,6 +237,7 @@ theorem xa_rebuild_defaults (f : XFld α) (hf : f.WF) (nm : String) (u : PyArg) 
     intro a ha
     simp only [hs a ha, Bool.false_eq_true, if_false]
 
+omit [FieldAttrs] in
 /-- **Rebuild from coordinates, ANY DataArray** (hand-built, not necessarily exported): if the
 geometric axes have distinct names and evenly spaced coordinates `v0, v0+h, …` with `h > 0`
 and at least two coordinates each, and `cell`, `pmin`, `pmax` are all absent, the geometry
@@ -243,7 +272,7 @@ theorem import_hand_built (xa : XA α) (d : Nat) (G : Nat → Axis) (hgeo : geo 
     (hcell : xa.attrs.cell = none) (hpmin : xa.attrs.pmin = none) (hpmax : xa.attrs.pmax = none)
     (k : Nat) (hk : 1 ≤ k) (hnv : xa.attrs.nvdim = some (.int k)) (hvd : 1 < k → "vdims" ∈ xa.dims)
     (hshape : xa.data.shape = tab d n ++ (if 1 < k then [k] else []))
-    (hlab : ∀ l, xa.vdimsCoord = some l → l.length = k ∧ hasDup l = false) :
+    (hlab : ∀ l, xa.vdimsCoord = some l → l.length = k ∧ hasDup l = false ∧ l.any FieldAttrs.has = false) :
     ∃ g, fromXarray (.dataArray xa) = .ok g ∧
       g.mesh.region.pmin = (tab d fun a => v0 a - h a / 2) ∧
       g.mesh.region.pmax = (tab d fun a => v0 a + ((n a : Rat) - 1) * h a + h a / 2) ∧
@@ -301,6 +330,29 @@ theorem rejects_vector_without_vdims (xa : XA α) (k : Int) (h : xa.attrs.nvdim 
     (hd : ¬ "vdims" ∈ xa.dims) : fromXarray (.dataArray xa) = .error .value :=
   fromXA_vector_no_vdims xa k h hk hd
 
+omit [FieldAttrs] in
+/-- **The component-count checks, exactly**: `from_xarray` gets past its first block of checks
+with component count `k` iff the attribute `nvdim` is the Python int `k`, `k ≥ 1`, and — for
+`k > 1` — the DataArray has a dimension called `vdims`.  (Missing attribute, non-int, `< 1`,
+vector without component axis: each is an error, see `rejects_*`.) -/
+theorem component_count_accepted_iff (nv : Option NvAttr) (dims : List String) (k : Nat) :
+    checkNvdim nv dims = .ok k ↔ (1 ≤ k ∧ nv = some (.int k) ∧ (1 < k → "vdims" ∈ dims)) := by
+  constructor
+  · exact checkNvdim_inv nv dims k
+  · rintro ⟨hk, rfl, hvd⟩
+    unfold checkNvdim
+    have h1 : ¬ ((k : Int) < 1) := by omega
+    have h2 : ¬ (1 < (k : Int) ∧ ¬ dims.contains "vdims" = true) := by
+      rintro ⟨h3, h4⟩
+      exact h4 (List.contains_iff_mem.mpr (hvd (by omega)))
+    simp only [h1, h2, if_false, Int.toNat_natCast]
+
+/-- **A label that names an attribute of `Field` is rejected** (the `hasattr` test of the
+`vdims` setter), for every DataArray and whatever the set of attribute names is. -/
+theorem rejects_reserved_label (xa : XA α) (l : List String) (hv : xa.vdimsCoord = some l) (c : String)
+    (hc : c ∈ l) (hr : FieldAttrs.has c = true) : ∃ e, fromXarray (.dataArray xa) = .error e :=
+  fromXA_reserved xa l hv c hc hr
+
 /-- **Unevenly spaced coordinates are rejected, at every length scale**: if on some geometric
 axis one spacing deviates from the mean spacing by more than `1e-5·|mean|` (a purely relative
 threshold), the import fails, whatever attributes are present. -/
@@ -310,6 +362,7 @@ theorem rejects_uneven (xa : XA α) (ax : Axis) (hax : ax ∈ geo xa) (j : Nat) 
     ∃ e, fromXarray (.dataArray xa) = .error e :=
   fromXA_uneven xa ax hax (evenB_false_of_dev _ j hj hdev)
 
+omit [FieldAttrs] in
 /-- **The spacing test is scale-invariant**: multiplying all coordinates by any positive
 factor (metres → nanometres), or shifting them, does not change whether they count as evenly
 spaced … -/
@@ -317,6 +370,7 @@ theorem spacing_test_scale_invariant (s t : Rat) (hs : 0 < s) (v : List Rat) :
     evenB (v.map (s * ·)) = evenB v ∧ evenB (v.map (· + t)) = evenB v :=
   ⟨evenB_scale s hs v, evenB_shift t v⟩
 
+omit [FieldAttrs] in
 /-- … hence the importer's spacing verdict on a DataArray is the same after a change of
 length unit of its coordinates (the former blindness below `1e-8`, finding D82, is gone:
 see the nanometre witness below, now rejected like its metre-scale copy). -/
@@ -324,7 +378,416 @@ theorem spacing_check_scale_invariant (s : Rat) (hs : 0 < s) (xa : XA α) :
     checkSpacing (scaleCoords s xa) = checkSpacing xa :=
   checkSpacing_scale s hs xa
 
+/-! ## The spacing test against its specification -/
+
+omit [FieldAttrs] in
+/-- **The spacing test is its specification**: the code-shaped test (`size > 1 and not
+np.allclose(np.diff(v), np.diff(v).mean(), atol=0)`, negated) accepts a coordinate exactly when
+every step `v[j+1] - v[j]` lies within `1e-5·|mean step|` of the mean step — a condition on the
+steps relative to the step, in which neither the position nor an absolute scale occurs. -/
+theorem spacing_test_spec (v : List Rat) :
+    evenB v = true ↔
+      ∀ j, j + 1 < v.length →
+        absR ((v.getD (j + 1) 0 - v.getD j 0) - meanDiff v) ≤ 1/100000 * absR (meanDiff v) :=
+  evenB_iff_spec v
+
+omit [FieldAttrs] in
+/-- the mean step the test compares with is `(last - first)/(size - 1)` (telescoping sum) -/
+theorem mean_step_formula (v : List Rat) :
+    meanDiff v = (v.getD (v.length - 1) 0 - v.getD 0 0) / ((v.length - 1 : Nat) : Rat) :=
+  meanDiff_eq v
+
+omit [FieldAttrs] in
+/-- **Acceptance of the spacing loop, exactly**: `from_xarray` gets past the spacing loop iff
+every geometric coordinate meets the specification; otherwise it raises `ValueError`. -/
+theorem spacing_accept_iff (xa : XA α) :
+    (checkSpacing xa = .ok () ↔
+      ∀ ax ∈ geo xa, ∀ j, j + 1 < ax.values.length →
+        absR ((ax.values.getD (j + 1) 0 - ax.values.getD j 0) - meanDiff ax.values)
+          ≤ 1/100000 * absR (meanDiff ax.values)) ∧
+    (checkSpacing xa = .ok () ∨ checkSpacing xa = .error .value) :=
+  ⟨checkSpacing_iff xa, checkSpacing_ok_or_value xa⟩
+
+omit [FieldAttrs] in
+/-- **The verdict depends on the steps only**: two coordinates of the same size with the same
+steps get the same verdict, wherever they lie. -/
+theorem spacing_depends_on_steps_only (v w : List Rat) (hl : v.length = w.length)
+    (hs : ∀ j, j + 1 < v.length → v.getD (j + 1) 0 - v.getD j 0 = w.getD (j + 1) 0 - w.getD j 0) :
+    evenB v = evenB w :=
+  evenB_congr_steps v w hl hs
+
+omit [FieldAttrs] in
+/-- **Translation invariance of the acceptance test on the DataArray**: moving the coordinate of
+every dimension `d` by its own offset `t d` — arbitrarily far from the origin — does not change
+the verdict of the spacing loop; nor does a positive affine map `x ↦ s·x + t` of one coordinate. -/
+theorem spacing_check_shift_invariant (t : String → Rat) (xa : XA α) :
+    checkSpacing (shiftCoords t xa) = checkSpacing xa ∧
+    ∀ (s t' : Rat), 0 < s → ∀ v : List Rat, evenB (v.map fun x => s * x + t') = evenB v :=
+  ⟨checkSpacing_shift t xa, fun s t' hs v => evenB_affine s t' hs v⟩
+
+omit [FieldAttrs] in
+/-- **Evenly spaced coordinates are accepted**: if every geometric coordinate is an arithmetic
+progression `v0, v0+h, …` — any origin, any step (also negative or zero), any length — the
+spacing loop passes. -/
+theorem accepts_even (xa : XA α) (v0 h : Axis → Rat) (n : Axis → Nat)
+    (hap : ∀ ax ∈ geo xa, ax.values = tab (n ax) fun j => v0 ax + (j : Rat) * h ax) :
+    checkSpacing xa = .ok () := by
+  rw [checkSpacing_iff]
+  intro ax hax
+  rw [← evenB_iff_spec, hap ax hax]
+  exact evenB_ap _ _ _
+
+/-- **Uneven coordinates are rejected wherever they lie**: if a geometric coordinate is a copy,
+moved by ANY offset `t`, of values `w` one of whose steps deviates from the mean step by more
+than `1e-5·|mean|`, the import fails — the offset does not enter the condition. -/
+theorem rejects_uneven_translated (xa : XA α) (ax : Axis) (hax : ax ∈ geo xa) (w : List Rat) (t : Rat)
+    (hv : ax.values = w.map (· + t)) (j : Nat) (hj : j + 1 < w.length)
+    (hdev : 1/100000 * absR (meanDiff w) < absR ((w.getD (j + 1) 0 - w.getD j 0) - meanDiff w)) :
+    ∃ e, fromXarray (.dataArray xa) = .error e := by
+  apply fromXA_uneven xa ax hax
+  rw [hv, evenB_shift]
+  exact evenB_false_of_dev _ j hj hdev
+
+/-- **Exact threshold for one displaced coordinate**: evenly spaced coordinates (any origin `v0`,
+any step `h`) whose interior coordinate `k` is displaced by `e` pass the spacing test iff
+`|e| ≤ 1e-5·|h|`; so a DataArray with such a coordinate and `|e| > 1e-5·|h|` is rejected at
+every distance from the origin and every length scale. -/
+theorem displaced_coordinate_threshold (v0 h : Rat) (n k : Nat) (e : Rat) (hk0 : 0 < k) (hk : k + 1 < n) :
+    (evenB (tab n fun j => v0 + (j : Rat) * h + (if j = k then e else 0)) = true ↔ absR e ≤ 1/100000 * absR h) ∧
+    ∀ (xa : XA α) (ax : Axis), ax ∈ geo xa →
+      ax.values = (tab n fun j => v0 + (j : Rat) * h + (if j = k then e else 0)) →
+      1/100000 * absR h < absR e → ∃ err, fromXarray (.dataArray xa) = .error err := by
+  refine ⟨evenB_apMoved v0 h n k e hk0 hk, ?_⟩
+  intro xa ax hax hv hbig
+  apply fromXA_uneven xa ax hax
+  rw [hv]
+  cases hb : evenB (tab n fun j => v0 + (j : Rat) * h + (if j = k then e else 0)) with
+  | false => rfl
+  | true =>
+    have := (evenB_apMoved v0 h n k e hk0 hk).mp hb
+    linarith
+
+omit [FieldAttrs] in
+/-- **Exact threshold for a displaced END coordinate** (the mean step moves with it): evenly
+spaced coordinates (any origin, any step `h`, `n ≥ 3`) whose last — or first — coordinate is
+displaced by `e` pass iff `|e|·(n-2)/(n-1) ≤ 1e-5·|h ± e/(n-1)|` (`+` for the last, `-` for the
+first); again no dependence on the origin.  Together with `displaced_coordinate_threshold` this
+settles every position of the displaced coordinate. -/
+theorem displaced_end_coordinate_threshold (v0 h : Rat) (n : Nat) (e : Rat) (hn : 3 ≤ n) :
+    (evenB (tab n fun j => v0 + (j : Rat) * h + (if j = n - 1 then e else 0)) = true ↔
+      absR (e * ((n : Rat) - 2) / ((n : Rat) - 1)) ≤ 1/100000 * absR (h + e / ((n : Rat) - 1))) ∧
+    (evenB (tab n fun j => v0 + (j : Rat) * h + (if j = 0 then e else 0)) = true ↔
+      absR (e * ((n : Rat) - 2) / ((n : Rat) - 1)) ≤ 1/100000 * absR (h - e / ((n : Rat) - 1))) :=
+  ⟨evenB_apMoved_last v0 h n e hn, evenB_apMoved_first v0 h n e hn⟩
+
+/-! ## Rebuild with any subset of the geometric attributes, any DataArray -/
+
+omit [FieldAttrs] in
+/-- **Rebuild from coordinates with ANY subset of `cell`/`pmin`/`pmax` present** (hand-built
+DataArray, any number of dimensions): the geometric axes have distinct names and evenly spaced
+coordinates `v0, v0+h, …` (`h > 0`, at least ONE coordinate); each of the three attributes is
+either absent or says what the coordinates say; if `cell` is absent every axis has at least two
+coordinates.  Then the geometry steps succeed and the mesh reaches exactly half a step beyond
+the outermost coordinates with one cell per coordinate — in particular for single-cell axes
+whenever `cell` is present (where the code can infer nothing from the coordinates). -/
+theorem rebuild_from_coords_any_subset (xa : XA α) (d : Nat) (G : Nat → Axis) (hgeo : geo xa = tab d G) (hd : 0 < d)
+    (v0 h : Nat → Rat) (n : Nat → Nat)
+    (hval : ∀ a, a < d → (G a).values = tab (n a) fun j => v0 a + (j : Rat) * h a)
+    (hh : ∀ a, a < d → 0 < h a) (hn : ∀ a, a < d → 1 ≤ n a)
+    (hnames : hasDup (tab d fun a => (G a).name) = false)
+    (hcell : xa.attrs.cell = none ∨ xa.attrs.cell = some (tab d h))
+    (hpmin : xa.attrs.pmin = none ∨ xa.attrs.pmin = some (tab d fun a => v0 a - h a / 2))
+    (hpmax : xa.attrs.pmax = none ∨ xa.attrs.pmax = some (tab d fun a => v0 a + ((n a : Rat) - 1) * h a + h a / 2))
+    (hinfer : xa.attrs.cell = none → (∀ a, a < d → 2 ≤ n a) ∧ ∀ x ∈ xa.data.shape.dropLast, x ≠ 1) :
+    ∃ m, geometryOf xa = .ok m ∧
+      m.region.pmin = (tab d fun a => v0 a - h a / 2) ∧
+      m.region.pmax = (tab d fun a => v0 a + ((n a : Rat) - 1) * h a + h a / 2) ∧
+      m.n = tab d n ∧ m.region.dims = (tab d fun a => (G a).name) ∧
+      m.region.tol = xa.attrs.tol.getD defaultTol :=
+  geometry_from_coords_gen xa d G hgeo hd v0 h n hval hh hn hnames ⟨hcell, hpmin, hpmax, hinfer⟩
+
+/-- **Import of a hand-built DataArray with any subset of the geometric attributes, values
+included**: as `rebuild_from_coords_any_subset`, plus an integer `nvdim = k ≥ 1`, data of shape
+`(*n)` / `(*n, k)`, labels absent or `k` distinct strings.  The import succeeds; the mesh is as
+stated; every value sits at its own cell and component; dtype tag and labels are kept. -/
+theorem import_hand_built_any_subset (xa : XA α) (d : Nat) (G : Nat → Axis) (hgeo : geo xa = tab d G) (hd : 0 < d)
+    (v0 h : Nat → Rat) (n : Nat → Nat)
+    (hval : ∀ a, a < d → (G a).values = tab (n a) fun j => v0 a + (j : Rat) * h a)
+    (hh : ∀ a, a < d → 0 < h a) (hn : ∀ a, a < d → 1 ≤ n a)
+    (hnames : hasDup (tab d fun a => (G a).name) = false)
+    (hcell : xa.attrs.cell = none ∨ xa.attrs.cell = some (tab d h))
+    (hpmin : xa.attrs.pmin = none ∨ xa.attrs.pmin = some (tab d fun a => v0 a - h a / 2))
+    (hpmax : xa.attrs.pmax = none ∨ xa.attrs.pmax = some (tab d fun a => v0 a + ((n a : Rat) - 1) * h a + h a / 2))
+    (hinfer : xa.attrs.cell = none → ∀ a, a < d → 2 ≤ n a)
+    (k : Nat) (hk : 1 ≤ k) (hnv : xa.attrs.nvdim = some (.int k)) (hvd : 1 < k → "vdims" ∈ xa.dims)
+    (hshape : xa.data.shape = tab d n ++ (if 1 < k then [k] else []))
+    (hlab : ∀ l, xa.vdimsCoord = some l → l.length = k ∧ hasDup l = false ∧ l.any FieldAttrs.has = false) :
+    ∃ g, fromXarray (.dataArray xa) = .ok g ∧
+      g.mesh.region.pmin = (tab d fun a => v0 a - h a / 2) ∧
+      g.mesh.region.pmax = (tab d fun a => v0 a + ((n a : Rat) - 1) * h a + h a / 2) ∧
+      g.mesh.n = tab d n ∧ g.mesh.region.dims = (tab d fun a => (G a).name) ∧ g.nvdim = k ∧
+      g.data.shape = tab d n ++ [k] ∧
+      (∀ i, inRange (tab d n ++ [k]) i = true → g.data.get i = xa.data.get (if 1 < k then i else i.dropLast)) ∧
+      g.dtype = xa.dtype ∧
+      g.vdims = (match xa.vdimsCoord with | some l => some l | none => Fld.defaultVdims k) := by
+  obtain ⟨m, hm, hp1, hp2, hmn, hdims, -⟩ :=
+    geometry_from_coords_gen xa d G hgeo hd v0 h n hval hh hn hnames
+      ⟨hcell, hpmin, hpmax, fun hc => ⟨hinfer hc, shape_no_one d n k _ hshape (hinfer hc)⟩⟩
+  obtain ⟨g, hg, hgm, hgk, hgs, hgd, hgt, hgv⟩ := import_of_geometry xa d n m hm hmn k hk hnv hvd hshape hlab
+  exact ⟨g, hg, by rw [hgm]; exact hp1, by rw [hgm]; exact hp2, by rw [hgm]; exact hmn, by rw [hgm]; exact hdims,
+    hgk, hgs, hgd, hgt, hgv⟩
+
+/-- **Coordinates that do not ascend cannot be rebuilt from**: without the `cell` attribute, a
+geometric axis whose last coordinate is not larger than its first (descending coordinates, or a
+single one) is rejected — the inferred cell size would not be positive. -/
+theorem rejects_descending_without_cell (xa : XA α) (hc : xa.attrs.cell = none) (ax : Axis) (hax : ax ∈ geo xa)
+    (hd : ax.values.getD (ax.values.length - 1) 0 ≤ ax.values.getD 0 0) :
+    ∃ e, fromXarray (.dataArray xa) = .error e := by
+  obtain ⟨e, he⟩ := geometryOf_descending xa hc ax hax hd
+  show ∃ e, fromXA xa = .error e
+  rw [fromXA_eq]
+  cases checkNvdim xa.attrs.nvdim xa.dims with
+  | error e' => exact ⟨e', rfl⟩
+  | ok k =>
+    simp only [Except.bind]
+    rw [he]
+    exact ⟨e, rfl⟩
+
+/-- **With `cell`, `pmin` and `pmax` all present the coordinate values are only spacing-tested,
+never used**: replacing them by ANY other values that pass the spacing test (reversed, shifted,
+rescaled) gives the identical result — same mesh from the attributes, same values at the same
+indices.  In particular a DataArray with descending coordinates and complete attributes is
+accepted and its data are NOT reordered (observation; such arrays are never produced by
+`to_xarray`). -/
+theorem attrs_override_coordinates (vals : String → List Rat) (xa : XA α) (c p q : List Rat)
+    (hc : xa.attrs.cell = some c) (hp : xa.attrs.pmin = some p) (hq : xa.attrs.pmax = some q)
+    (h1 : checkSpacing xa = .ok ()) (h2 : checkSpacing (setCoordVals vals xa) = .ok ()) :
+    fromXarray (.dataArray (setCoordVals vals xa)) = fromXarray (.dataArray xa) :=
+  fromXA_setCoordVals vals xa c p q hc hp hq h1 h2
+
+/-- **Exactly when an export can be rebuilt**: with any subset `c p q` of `cell`/`pmin`/`pmax`
+removed from the export of a well-formed field, the import succeeds if and only if `cell` was
+kept or every axis has at least two cells — the code can infer the cell size from the
+coordinates of an axis iff that axis has two of them. -/
+theorem xa_rebuild_iff (f : XFld α) (hf : f.WF) (nm : String) (u : PyArg) (c p q : Bool) :
+    (∃ g, fromXarray (.dataArray (eraseGeom c p q (exported f nm u))) = .ok g) ↔
+      (c = true → ∀ a, a < f.mesh.ndim → 2 ≤ f.mesh.nAt a) := by
+  constructor
+  · rintro ⟨g, hg⟩ hc a ha
+    subst hc
+    by_contra hlt
+    have h1 : f.mesh.nAt a = 1 := by have := hf.mesh.2.2 a ha; omega
+    obtain ⟨e, he⟩ := xa_export_single_cell_rejected f hf nm u p q a ha h1
+    rw [he] at hg; cases hg
+  · intro hc
+    obtain ⟨g, hg, -⟩ := xa_rebuild f hf nm u c p q hc
+    exact ⟨g, hg⟩
+
+/-! ## The export follows the mesh as it is now (in-place changes before the export) -/
+
+/-- **A history of in-place changes of the mesh keeps the field well-formed**: after any
+sequence of `field.mesh.translate(…, inplace=True)` / `field.mesh.scale(…, inplace=True)` calls
+with ARBITRARY arguments (rejected calls change nothing) the field is well-formed, on a mesh
+with the same cell counts, names, units and tolerance, with the same array, labels, unit, dtype. -/
+theorem inplace_history_wf (f : XFld α) (hf : f.WF) (ops : List MeshOp) :
+    (f.run ops).WF ∧ (f.run ops).mesh.n = f.mesh.n ∧ (f.run ops).mesh.region.dims = f.mesh.region.dims ∧
+    (f.run ops).mesh.region.units = f.mesh.region.units ∧ (f.run ops).mesh.region.tol = f.mesh.region.tol ∧
+    (f.run ops).data = f.data ∧ (f.run ops).nvdim = f.nvdim ∧ (f.run ops).vdims = f.vdims ∧
+    (f.run ops).unit = f.unit ∧ (f.run ops).dtype = f.dtype := by
+  have h := run_same f hf ops
+  exact ⟨h.wf hf, h.frame.n, h.frame.dims, h.frame.units, h.frame.tol, h.data, h.nvdim, h.vdims, h.unit, h.dtype⟩
+
+/-- **The exported coordinates are the cell centres of the mesh as it is at the time of the
+export**: after any history of in-place changes, `to_xarray` succeeds and coordinate `j` of axis
+`a` is `pmin + (j+½)·cell` of the CURRENT mesh (a function of the current geometry only), with
+the region's units; the geometric attributes are the current ones; the data are untouched. -/
+theorem export_after_history (f : XFld α) (hf : f.WF) (ops : List MeshOp) (nm : String) (u : PyArg) (hu : u ≠ .other) :
+    ∃ xa, exportAfter f ops (.str nm) u = .ok xa ∧
+      (∀ a, a < f.mesh.ndim →
+        xa.axes.getD a default =
+          { name := f.mesh.region.dims.getD a "", size := f.mesh.nAt a,
+            coord := some { vals := tab (f.mesh.nAt a) fun j => (f.run ops).mesh.centreAx a (j : Int),
+                            units := some (f.mesh.region.units.getD a "") } }) ∧
+      xa.attrs.cell = some (f.run ops).mesh.cell ∧ xa.attrs.pmin = some (f.run ops).mesh.region.pmin ∧
+      xa.attrs.pmax = some (f.run ops).mesh.region.pmax ∧ xa.data = exportData f ∧
+      xa.vdimsCoord = (if 1 < f.nvdim then f.vdims else none) := by
+  have h := run_same f hf ops
+  have hw := h.wf hf
+  obtain ⟨xa, hxa, hax⟩ := export_coords (f.run ops) hw nm u hu
+  have hx : xa = exported (f.run ops) nm u := by
+    unfold toXarray at hxa
+    simp only [hu, if_false] at hxa
+    injection hxa with hxa; exact hxa.symm
+  refine ⟨xa, hxa, ?_, by rw [hx]; rfl, by rw [hx]; rfl, by rw [hx]; rfl, ?_, ?_⟩
+  · intro a ha
+    have := hax a (by rw [h.frame.ndim]; exact ha)
+    rw [this, h.frame.dims, h.frame.units]
+    have hn : (f.run ops).mesh.nAt a = f.mesh.nAt a := by unfold Mesh.nAt; rw [h.frame.n]
+    rw [hn]
+  · rw [hx]
+    show exportData (f.run ops) = exportData f
+    unfold exportData; rw [h.nvdim, h.data]
+  · rw [hx]
+    show (if 1 < (f.run ops).nvdim then (f.run ops).vdims else none) = _
+    rw [h.nvdim, h.vdims]
+
+/-- **Export commutes with an in-place translation**: if `field.mesh.translate(v, inplace=True)`
+is accepted, every exported coordinate of axis `a` moves by `v[a]`; names, sizes and units stay. -/
+theorem export_translate_commutes (f : XFld α) (hf : f.WF) (v : List Rat) (m' ret : Mesh)
+    (h : T.stepM f.mesh (.translate v true) = .ok (m', ret)) (nm : String) (u : PyArg)
+    (a : Nat) (ha : a < f.mesh.ndim) :
+    ((exported (f.meshStep (.translate v)) nm u).axes.getD a default).name = ((exported f nm u).axes.getD a default).name ∧
+    ((exported (f.meshStep (.translate v)) nm u).axes.getD a default).units = ((exported f nm u).axes.getD a default).units ∧
+    ((exported (f.meshStep (.translate v)) nm u).axes.getD a default).values.length = f.mesh.nAt a ∧
+    ∀ j, j < f.mesh.nAt a →
+      ((exported (f.meshStep (.translate v)) nm u).axes.getD a default).values.getD j 0
+        = ((exported f nm u).axes.getD a default).values.getD j 0 + v.getD a 0 := by
+  have hs := meshStep_same f hf (.translate v)
+  have hw := hs.wf hf
+  have ha' : a < (f.meshStep (.translate v)).mesh.ndim := by rw [hs.frame.ndim]; exact ha
+  have hn : (f.meshStep (.translate v)).mesh.nAt a = f.mesh.nAt a := by unfold Mesh.nAt; rw [hs.frame.n]
+  refine ⟨?_, ?_, ?_, ?_⟩
+  · rw [exported_axis _ hw nm u a ha', exported_axis f hf nm u a ha, hs.frame.dims]
+  · rw [exported_axis _ hw nm u a ha', exported_axis f hf nm u a ha, hs.frame.units]; rfl
+  · rw [exported_values _ hw nm u a ha', tab_length, hn]
+  · intro j hj
+    rw [exported_values_getD _ hw nm u a ha' j (by rw [hn]; exact hj), exported_values_getD f hf nm u a ha j hj,
+      meshStep_translate_eq f v m' ret h]
+    exact centre_translate f.mesh v m' ret h a ha _
+
+/-- **Export commutes with an in-place scaling**: if `field.mesh.scale(factor, reference_point,
+inplace=True)` is accepted, exported coordinate `c` of axis `a` becomes `ref + s·(c - ref)` for a
+positive factor `s` on that axis (`ref` = the reference point, default the region's centre); for
+a negative factor the same holds with the order of the cells along the axis reversed. -/
+theorem export_scale_commutes (f : XFld α) (hf : f.WF) (s : T.Factor) (ref : Option (List Rat)) (m' ret : Mesh)
+    (h : T.stepM f.mesh (.scale s ref true) = .ok (m', ret)) (nm : String) (u : PyArg)
+    (a : Nat) (ha : a < f.mesh.ndim) :
+    ((exported (f.meshStep (.scale s ref)) nm u).axes.getD a default).values.length = f.mesh.nAt a ∧
+    (0 < s.at a → ∀ j, j < f.mesh.nAt a →
+      ((exported (f.meshStep (.scale s ref)) nm u).axes.getD a default).values.getD j 0
+        = (refOf f.mesh.region ref).getD a 0 + s.at a *
+            (((exported f nm u).axes.getD a default).values.getD j 0 - (refOf f.mesh.region ref).getD a 0)) ∧
+    (s.at a < 0 → ∀ j, j < f.mesh.nAt a →
+      ((exported (f.meshStep (.scale s ref)) nm u).axes.getD a default).values.getD j 0
+        = (refOf f.mesh.region ref).getD a 0 + s.at a *
+            (((exported f nm u).axes.getD a default).values.getD (f.mesh.nAt a - 1 - j) 0
+              - (refOf f.mesh.region ref).getD a 0)) := by
+  have hs := meshStep_same f hf (.scale s ref)
+  have hw := hs.wf hf
+  have ha' : a < (f.meshStep (.scale s ref)).mesh.ndim := by rw [hs.frame.ndim]; exact ha
+  have hn : (f.meshStep (.scale s ref)).mesh.nAt a = f.mesh.nAt a := by unfold Mesh.nAt; rw [hs.frame.n]
+  refine ⟨?_, ?_, ?_⟩
+  · rw [exported_values _ hw nm u a ha', tab_length, hn]
+  · intro hpos j hj
+    rw [exported_values_getD _ hw nm u a ha' j (by rw [hn]; exact hj), exported_values_getD f hf nm u a ha j hj,
+      meshStep_scale_eq f s ref m' ret h]
+    exact centre_scale_pos f.mesh s ref m' ret h a ha hf.mesh hpos _
+  · intro hneg j hj
+    rw [exported_values_getD _ hw nm u a ha' j (by rw [hn]; exact hj),
+      exported_values_getD f hf nm u a ha (f.mesh.nAt a - 1 - j) (by omega), meshStep_scale_eq f s ref m' ret h]
+    have := centre_scale_neg f.mesh s ref m' ret h a ha hf.mesh hneg (j : Int)
+    rw [this]
+    have e : ((f.mesh.nAt a - 1 - j : Nat) : Int) = (f.mesh.nAt a : Int) - 1 - (j : Int) := by omega
+    rw [e]
+
+/-- **In-place calls on a mesh without subregions are accepted** (so the two theorems above are
+not vacuous and the history really moves the mesh): a translation by a vector of the right
+length, and a scaling by non-zero factors about a reference point of the right length. -/
+theorem inplace_accepted (f : XFld α) (hf : f.WF) (hsub : f.mesh.subs = []) :
+    (∀ v : List Rat, v.length = f.mesh.ndim → ∃ m', T.stepM f.mesh (.translate v true) = .ok (m', m')) ∧
+    (∀ (s : T.Factor) (ref : Option (List Rat)), s.okFor f.mesh.ndim = true →
+      (refOf f.mesh.region ref).length = f.mesh.ndim → (∀ a, a < f.mesh.ndim → s.at a ≠ 0) →
+      ∃ m', T.stepM f.mesh (.scale s ref true) = .ok (m', m')) :=
+  ⟨fun v hv => translate_accepted f.mesh hf.mesh hsub v hv,
+   fun s ref h1 h2 h3 => scale_accepted f.mesh hf.mesh hsub s ref h1 h2 h3⟩
+
+/-- **Round trip after a history**: export after any sequence of in-place changes of the mesh,
+then import: the region is the CURRENT one (corners, names, units, tolerance), cell counts,
+component count, every value, dtype tag and (for `LabelsStd` fields) labels are the field's. -/
+theorem xa_roundtrip_after_history (f : XFld α) (hf : f.WF) (ops : List MeshOp) (nm : String) (u : PyArg) (hu : u ≠ .other) :
+    ∃ xa g, exportAfter f ops (.str nm) u = .ok xa ∧ fromXarray (.dataArray xa) = .ok g ∧
+      g.mesh.region = (f.run ops).mesh.region ∧ g.mesh.n = f.mesh.n ∧ g.nvdim = f.nvdim ∧
+      g.data.shape = f.data.shape ∧ (∀ i, inRange f.data.shape i = true → g.data.get i = f.data.get i) ∧
+      g.dtype = f.dtype ∧ (LabelsStd f → g.vdims = f.vdims) := by
+  have h := run_same f hf ops
+  obtain ⟨xa, g, h1, h2, h3, h4, h5, h6, h7, -, h9, h10⟩ := xa_roundtrip (f.run ops) (h.wf hf) nm u hu
+  refine ⟨xa, g, h1, h2, h3, by rw [h4, h.frame.n], by rw [h5, h.nvdim], by rw [h6, h.data], ?_, by rw [h9, h.dtype], ?_⟩
+  · intro i hi
+    have := h7 i (by rw [h.data]; exact hi)
+    rw [this, h.data]
+  · intro hl
+    have hl' : LabelsStd (f.run ops) := by
+      unfold LabelsStd at hl ⊢
+      rw [h.nvdim, h.vdims]; exact hl
+    rw [h10 hl', h.vdims]
+
+/-! ## What the importer returns is well-formed; import ∘ export is the identity on it -/
+
+/-- **Every field `from_xarray` returns is well-formed** — for EVERY DataArray (no hypothesis on
+coordinates or attributes): a well-formed region named after the geometric dimensions (none of
+them `vdims`), positive cell counts, array of shape `(*n, nvdim)`, `nvdim ≥ 1` equal to the
+attribute, labels absent or `nvdim` distinct strings none of which names an attribute of `Field`;
+no boundary conditions, subregions or unit, every cell valid, the DataArray's dtype.  Hence the
+hypothesis `WF` of the export theorems is discharged for imported fields.  (`hdef`: when the
+DataArray has no label coordinate the constructor's default labels `x, y, z, v0, …` are used
+unchecked; they are not attributes of `Field` — verified on the real class by the harness.) -/
+theorem import_wf (xa : XA α) (g : XFld α) (h : fromXarray (.dataArray xa) = .ok g)
+    (hdef : xa.vdimsCoord = none → ∀ k l, Fld.defaultVdims k = some l → l.any FieldAttrs.has = false) :
+    g.WF ∧ g.mesh.region.dims = (geo xa).map Axis.name ∧ g.mesh.bc = "" ∧ g.mesh.subs = [] ∧
+    xa.attrs.nvdim = some (.int g.nvdim) ∧ g.dtype = xa.dtype ∧ g.unit = none ∧
+    g.valid = NDA.const g.mesh.n true :=
+  fromXA_wf xa g h hdef
+
+/-- **Import ∘ export is the identity on imported fields**: for every DataArray the importer
+accepts, exporting the result and importing again returns the same mesh (exactly: region, cell
+counts, no bc, no subregions), component count, values, dtype tag, unit, validity and — when the
+imported field is a labelled vector or an unlabelled scalar field — labels and mapping. -/
+theorem import_export_import (xa : XA α) (g : XFld α) (h : fromXarray (.dataArray xa) = .ok g)
+    (hdef : xa.vdimsCoord = none → ∀ k l, Fld.defaultVdims k = some l → l.any FieldAttrs.has = false)
+    (nm : String) (u : PyArg) :
+    ∃ g', fromXarray (.dataArray (exported g nm u)) = .ok g' ∧ g'.mesh = g.mesh ∧ g'.nvdim = g.nvdim ∧
+      g'.data.shape = g.data.shape ∧ (∀ i, inRange g.data.shape i = true → g'.data.get i = g.data.get i) ∧
+      g'.dtype = g.dtype ∧ g'.unit = g.unit ∧ g'.valid = g.valid ∧
+      (LabelsStd g → g'.vdims = g.vdims ∧ g'.vmap = defaultVmap g.nvdim g.mesh.region.dims g.vdims) := by
+  obtain ⟨hw, -, hbc, hsub, -, -, hun, hva⟩ := fromXA_wf xa g h hdef
+  obtain ⟨g', hg', hm, hk, hd, hv, ht, hu', hva', hvm⟩ :=
+    fromXA_likeExport hw (likeExport_exported hw nm u) (fun hc => by cases hc)
+  rw [meshAfter_export hw] at hm
+  refine ⟨g', hg', ?_, hk, hd.1, fun i hi => hd.2 i (hd.1 ▸ hi), ht, by rw [hu', hun], by rw [hva', hva], ?_⟩
+  · rw [hm]
+    cases hgm : g.mesh with
+    | mk r n bc subs =>
+      rw [hgm] at hbc hsub
+      simp only at hbc hsub
+      rw [hbc, hsub]
+  · intro hl
+    have := (vdimsAfter_eq_iff hw).mpr hl
+    exact ⟨by rw [hv, this], by rw [hvm, this]⟩
+
+/-- **Constructor-built fields are well-formed** (the hypothesis `WF` of the export theorems,
+discharged): `Region(p1, p2, dims, units)`, `Mesh(region, n, bc)`, an array accepted by
+`_as_array`, labels accepted by the `vdims` setter, `nvdim ≥ 1`, no dimension called `vdims`. -/
+theorem wf_of_constructors (p1 p2 : List Rat) (d : List String) (units : Option (List String)) (tol : Rat)
+    (r : Region) (hr : Region.mk? p1 p2 (some d) units tol = .ok r) (n : List Nat) (bc : String) (m : Mesh)
+    (hm : Mesh.mkN? r n bc = .ok m) (k : Nat) (hk : 1 ≤ k) (val dat : NDA α) (hd : asArray val m.n k = .ok dat)
+    (vc vd : Option (List String)) (hv : vdimsSet k vc = .ok vd) (hnovd : ¬ "vdims" ∈ d)
+    (hdef : vc = none → ∀ k l, Fld.defaultVdims k = some l → l.any FieldAttrs.has = false)
+    (valid : NDA Bool) (vmap : List (String × String)) (unit : Option String) (dtype : String) :
+    ({ mesh := m, nvdim := k, data := dat, valid := valid, vdims := vd, vmap := vmap, unit := unit, dtype := dtype }
+      : XFld α).WF := by
+  obtain ⟨hri, hrd⟩ := regionMk_inv _ _ _ _ _ _ hr
+  obtain ⟨hmi, hmr, -⟩ := mkN_inv r hri n bc m hm
+  exact { mesh := hmi, nvdim := hk, shape := asArray_shape _ _ _ _ hd,
+          novd := by show ¬ "vdims" ∈ m.region.dims; rw [hmr, hrd]; exact hnovd,
+          labels := vdimsSet_inv k vc vd hv hdef }
+
+end
+
 /-! ## Non-vacuity and witnesses -/
+
+section
+attribute [local instance] exAttrs
+
 
 example : exF.WF := exF_wf
 example : exS.WF := exS_wf
@@ -372,5 +835,73 @@ example : (1 : Rat)/100000 * absR (meanDiff [0, 1/1000000000, 5/1000000000])
 /-- an unlabelled vector field and a labelled scalar field are not `LabelsStd` -/
 example : ¬ LabelsStd { exF with vdims := none } := by unfold LabelsStd; decide
 example : ¬ LabelsStd { exS with vdims := some ["s"] } := by unfold LabelsStd; decide
+
+/-! ### non-vacuity of the theorems on spacing, subsets, histories, the importer's range -/
+
+/-- `import_hand_built_any_subset` on `exOne`: single-cell axis x = [3] with `cell = (2, ½)`,
+`pmax` present, `pmin` absent: mesh from (2, 9¾) to (4, 10¾), 1×2 cells -/
+example : ∃ g, fromXarray (.dataArray exOne) = .ok g ∧ g.mesh.region.pmin = [2, 39/4] ∧
+    g.mesh.region.pmax = [4, 43/4] ∧ g.mesh.n = [1, 2] := by
+  obtain ⟨g, hg, h1, h2, h3, -⟩ :=
+    import_hand_built_any_subset exOne 2 (fun a => (geo exOne).getD a default) (by decide +kernel) (by decide)
+      (fun a => [3, 10].getD a 0) (fun a => [2, 1/2].getD a 0) (fun a => [1, 2].getD a 0)
+      (by decide +kernel) (by decide +kernel) (by decide) (by decide +kernel)
+      (Or.inr (by decide +kernel)) (Or.inl rfl) (Or.inr (by decide +kernel)) (fun h => by cases h)
+      1 (by decide) rfl (fun h => by omega) (by decide) (fun l h => by cases h)
+  refine ⟨g, hg, ?_, ?_, ?_⟩
+  · rw [h1]; decide +kernel
+  · rw [h2]; decide +kernel
+  · rw [h3]; decide
+
+/-- a far-away copy of the uneven witness: offset 10^12 -/
+example : (1 : Rat)/100000 * absR (meanDiff [0, 1, 5]) < absR (([0, 1, 5].getD (0 + 1) 0 - [0, 1, 5].getD 0 0) - meanDiff [0, 1, 5]) := by
+  decide +kernel
+example : ([0, 1, 5] : List Rat).map (· + 1000000000000) = [1000000000000, 1000000000001, 1000000000005] := by decide +kernel
+
+/-- displaced interior coordinate: threshold exactly at 1e-5 of the step -/
+example : evenB (tab 5 fun j => (7 : Rat) + (j : Rat) * (1/4) + (if j = 2 then 1/400000 else 0)) = true := by decide +kernel
+example : evenB (tab 5 fun j => (7 : Rat) + (j : Rat) * (1/4) + (if j = 2 then 1/399999 else 0)) = false := by decide +kernel
+
+example : (exportAfter exS exOps).toOption.map (fun xa => (xa.axes.map Axis.values, xa.attrs.pmin, xa.attrs.pmax, xa.attrs.cell))
+    = some ([[-3/4, 1/4, 5/4], [99/8, 101/8]], some [-5/4, 49/4], some [7/4, 51/4], some [1, 1/4]) := by decide +kernel
+
+example : ∃ m', T.stepM exS.mesh (.translate [1, 2] true) = .ok (m', m') := (inplace_accepted exS exS_wf rfl).1 _ rfl
+example : ∃ m', T.stepM exS.mesh (.scale (.vec [-2, 1/2]) none true) = .ok (m', m') :=
+  (inplace_accepted exS exS_wf rfl).2 _ _ rfl rfl (by decide +kernel)
+
+/-- the constructor's final test is reachable: a cell larger than the region, 1e16 from the origin -/
+example : (Mesh.mkCell? { pmin := [10000000000000000], pmax := [10000000000000002], dims := ["x"], units := ["m"], tol := defaultTol } [10000]).toOption.map (·.n) = some [0] := by decide +kernel
+example : (mkCellNow? { pmin := [10000000000000000], pmax := [10000000000000002], dims := ["x"], units := ["m"], tol := defaultTol } [10000]).toOption.map (·.n) = none := by decide +kernel
+
+example : Region.mk? [0, 3] [1, 1] (some ["x", "t"]) none (1/10) = .ok { pmin := [0, 1], pmax := [1, 3], dims := ["x", "t"], units := ["m", "m"], tol := 1/10 } := by decide +kernel
+example : Mesh.mkN? { pmin := [0, 1], pmax := [1, 3], dims := ["x", "t"], units := ["m", "m"], tol := 1/10 } [2, 3] "" = .ok { region := { pmin := [0, 1], pmax := [1, 3], dims := ["x", "t"], units := ["m", "m"], tol := 1/10 }, n := [2, 3], bc := "", subs := [] } := by decide +kernel
+
+
+/-- the importer accepts `exHand` (hypothesis of `import_wf` / `import_export_import`) -/
+example : (fromXarray (.dataArray exHand)).toOption.isSome = true := by decide +kernel
+
+/-- the hypothesis `hdef` of `import_wf` / `import_export_import` / `wf_of_constructors` holds
+for the sample attribute set, whose attribute names do occur as labels in `exReserved` -/
+example : ∀ k l, Fld.defaultVdims k = some l → l.any FieldAttrs.has = false := exAttrs_defaults
+example : FieldAttrs.has "mesh" = true ∧ (fromXarray (.dataArray exReserved)).toOption.isSome = false := by decide +kernel
+example : ∃ g, fromXarray (.dataArray exHand) = .ok g ∧ g.WF := by
+  have hs : (fromXarray (.dataArray exHand)).toOption.isSome = true := by decide +kernel
+  cases h : fromXarray (.dataArray exHand) with
+  | error e => rw [h] at hs; cases hs
+  | ok g => exact ⟨g, rfl, (import_wf exHand g h (fun _ => exAttrs_defaults)).1⟩
+
+/-- descending coordinates: rejected without `cell` (`exDesc` minus its attributes), accepted
+unreordered with complete attributes — the result is the one for the ascending coordinates -/
+example : (fromXarray (.dataArray (eraseGeom true true true exDesc))).toOption.isSome = false := by decide +kernel
+example : checkSpacing exDesc = .ok () ∧ checkSpacing (setCoordVals (fun _ => [1, 2, 3]) exDesc) = .ok () := by decide +kernel
+example : (fromXarray (.dataArray exDesc)).toOption.map (fun g => (g.mesh.region.pmin, g.mesh.n, g.data.toList))
+    = some ([1/2], [3], [0, 10, 20]) := by decide +kernel
+
+/-- displaced last coordinate, `n = 3`, step 1: `e = 2/99999` is exactly on the threshold
+(`|e|/2 = 1e-5·(1 + e/2)`), a slightly larger displacement is rejected -/
+example : evenB (tab 3 fun j => (100 : Rat) + (j : Rat) * 1 + (if j = 3 - 1 then 2/99999 else 0)) = true := by decide +kernel
+example : evenB (tab 3 fun j => (100 : Rat) + (j : Rat) * 1 + (if j = 3 - 1 then 2/99998 else 0)) = false := by decide +kernel
+
+end
 
 end DFV.C17
